@@ -12,6 +12,7 @@ pub mod stubs;
 
 pub mod h_unarmor;
 pub mod p_c01;
+pub mod p_c02;
 pub mod p_c04;
 pub mod p_c09;
 pub mod p_c12;
@@ -34,6 +35,8 @@ pub fn lookup<N: nd::Nd>(name: &str) -> Option<fn(&mut N)> {
         .or_else(|| p_c12::wp::LP::<N>(name))
         .or_else(|| p_c12::wt::LT::<N>(name))
         .or_else(|| p_c16::wp::LP::<N>(name))
+        .or_else(|| p_c02::w96::L96::<N>(name))
+        .or_else(|| p_c02::w400::L400::<N>(name))
         .or_else(|| p_c01::wfp::LFP::<N>(name))
         .or_else(|| p_c01::wft::LFT::<N>(name))
         .or_else(|| p_c01::wtx::LTX::<N>(name))
